@@ -52,7 +52,8 @@ type fsmInst struct {
 	last     uint64 // last applied op index handed to this instance since the last restore
 	hasLast  bool
 	cnt, chn uint64
-	tainted  bool
+	tainted  bool // restored from a snapshot already flagged by the C10 label/content oracle
+	reported bool
 }
 
 type applyRec struct {
@@ -506,7 +507,7 @@ func (m *Monitor) onLogOpen(ev *Event) {
 			}
 		}
 		if !ok {
-			m.violate(ev, []string{"C04", "C12", "C14"}, "log-not-durable", n.ID, "node %s inc %d: reopened log differs from completed operations: %s", n.ID, ev.Inc, why)
+			m.violate(ev, []string{"C04", "C12", "C14", "C06"}, "log-not-durable", n.ID, "node %s inc %d: reopened log differs from completed operations: %s", n.ID, ev.Inc, why)
 		}
 	}
 	n.haveLog = true
@@ -683,7 +684,8 @@ func (m *Monitor) onLogTrunc(ev *Event) {
 		if ke, ok := m.K[j]; ok {
 			e := n.entry(j)
 			if e.Term == ke.Term {
-				props := []string{"C06", "C07"}
+				// a committed (acknowledged) entry leaves a disk it was stored on: C06/C07, and C04's "never lost"
+				props := []string{"C06", "C07", "C04"}
 				m.violate(ev, props, "committed-entry-truncated", n.ID, "node %s truncated at %d and removed committed entry (index %d, term %d)", n.ID, idx, j, ke.Term)
 				break
 			}
@@ -797,7 +799,8 @@ func (m *Monitor) markCommitted(ev *Event, n *NodeSh, upto uint64, how string) {
 			if ke.Term != e.Term || ke.Hash != e.Hash || ke.Type != e.Type {
 				props := []string{"C07", "C06"}
 				if e.Type == 1 || ke.Type == 1 {
-					props = append(props, "C01")
+					// two different operations are committed at one index: one of them was acknowledged and is lost
+					props = append(props, "C01", "C04")
 				}
 				m.violate(ev, props, "commit-divergence", n.ID, "index %d committed as (term %d) [seq %d] but node %s reports (term %d) committed via %s", j, ke.Term, m.KSeq[j], n.ID, e.Term, how)
 			}
@@ -1177,7 +1180,7 @@ func (m *Monitor) onApply(ev *Event) {
 		}
 	}
 	// C10 (2): the replica is in the canonical state for this index
-	if rec.cnt != 0 && (ev.Cnt != rec.cnt || ev.Chn != rec.chn) && !in.tainted {
+	if rec.cnt != 0 && (ev.Cnt != rec.cnt || ev.Chn != rec.chn) && !in.tainted && !in.reported {
 		sig := "replica-state-diverged"
 		if ev.Cnt > rec.cnt {
 			sig = "replica-applied-twice"
@@ -1185,7 +1188,7 @@ func (m *Monitor) onApply(ev *Event) {
 			sig = "replica-missed-operations"
 		}
 		m.violate(ev, []string{"C10"}, sig, ev.Node, "state machine of %s (instance %d) after index %d holds %d operations, the committed history has %d", ev.Node, in.id, ev.Idx, ev.Cnt, rec.cnt)
-		in.tainted = true // report once per instance
+		in.reported = true // report once per instance (this is not a taint: other oracles keep judging the instance)
 	}
 	m.markCommitted(ev, n, ev.Idx, "apply")
 }
